@@ -145,7 +145,7 @@ def utf8LenDec (d : UInt8) (sl : Bytes) : Res (Bytes × Nat) :=
     let position := findByte d window
     let s := body.take position
     if !validUtf8 s then .err .packetBad
-    else .ok (s, position + 1)
+    else .ok (s, 1 + window.length)
 
 /-- byte offset of the first 2-aligned chunk equal to `[d0, d1]`, if any -/
 def findPair (d0 d1 : UInt8) : Bytes → Option Nat
